@@ -3,6 +3,7 @@ package rules
 import (
 	"go/ast"
 	"go/token"
+	"go/types"
 
 	"engcheck/core"
 )
@@ -18,6 +19,7 @@ func init() {
 	register("C13", func(c *core.Ctx, tier string) {
 		c13NoPartialFrames(c)
 		c13WholePayload(c)
+		c13CopyLoops(c)
 		c13KindBit(c)
 		wtPeekValidity(c, "C13.3b")
 		c14LengthForms(c) // C13.4 = C14.1-3
@@ -783,4 +785,192 @@ func keys(m map[string]bool) []string {
 	}
 	sortStrings(out)
 	return out
+}
+
+// C13.2b — the buffered write paths copy every input byte exactly once, in order.
+func c13CopyLoops(c *core.Ctx) {
+	const R = "C13.2b"
+	c.Rule(R, "streaming copy loops (sibling agreement Write ∥ WriteString): the loop runs while len(p) > 0; each round takes n from ncopy(len(p)), copies p[:n] to writeBuf[pos:], then advances pos += n and p = p[n:] (copy first), and the function reports the original length; ncopy never returns more than its argument or than the room left; ReadFrom reads into writeBuf[pos:] and advances pos by the count read")
+	for _, key := range []string{"webtransport.(*messageWriter).Write", "webtransport.(*messageWriter).WriteString"} {
+		u := c.Fn(R, key)
+		if u == nil {
+			continue
+		}
+		info := u.Info()
+		g := u.Graph()
+		p := paramName(u, 0)
+		var loop *ast.ForStmt
+		ast.Inspect(u.Body, func(n ast.Node) bool {
+			if fs, ok := n.(*ast.ForStmt); ok && loop == nil {
+				loop = fs
+			}
+			return true
+		})
+		if loop == nil || loop.Cond == nil {
+			c.Undecided(R, key+"/copy-loop", "unrecognised shape: no conditional for loop")
+			continue
+		}
+		condOK := false
+		if cmp, ok := u.BranchCmp(core.Branch{Cond: loop.Cond}); ok {
+			if edge, isLen := lenPositive(cmp); isLen && edge == 0 {
+				if ce, isC := ast.Unparen(cmp.X).(*ast.CallExpr); isC && len(ce.Args) == 1 && isLocal(info, ce.Args[0], p) {
+					condOK = true
+				}
+			}
+		}
+		var nObj ast.Expr
+		var ncopyLoc, copyLoc, posLoc, advLoc core.Loc
+		ncopyOK, copyOK, posOK, advOK := false, false, false, false
+		for _, cl := range u.CallsTo("webtransport.(*messageWriter).ncopy") {
+			if ce, isC := ast.Unparen(cl.Arg(0)).(*ast.CallExpr); isC && len(ce.Args) == 1 && isLocal(info, ce.Args[0], p) {
+				if id, isId := ce.Fun.(*ast.Ident); isId && id.Name == "len" {
+					ncopyOK = true
+					ncopyLoc = cl.Loc
+				}
+			}
+		}
+		// n is the first result of ncopy, used by pos += n
+		for _, pa := range fieldAssigns(u, "messageWriter.pos") {
+			if pa.Tok == token.ADD_ASSIGN && pa.Rhs != nil {
+				if te, isT := u.Resolve(pa.Rhs).(*core.TupleElem); isT && te.Index == 0 {
+					if _, k := u.AsCall(te.X); k == "webtransport.(*messageWriter).ncopy" {
+						posOK = true
+						posLoc = pa.Loc
+						nObj = pa.Rhs
+					}
+				}
+			}
+		}
+		ast.Inspect(loop.Body, func(n ast.Node) bool {
+			ce, isC := n.(*ast.CallExpr)
+			if !isC || nObj == nil {
+				return true
+			}
+			if id, isId := ce.Fun.(*ast.Ident); isId && id.Name == "copy" && len(ce.Args) == 2 {
+				dst, isD := ast.Unparen(ce.Args[0]).(*ast.SliceExpr)
+				if !isD || fieldOf(info, dst.X) != "Conn.writeBuf" || dst.Low == nil || dst.High != nil || fieldOf(info, dst.Low) != "messageWriter.pos" {
+					return true
+				}
+				// source: p[:n], or p itself (copy clamps to the room, which is what n is)
+				src := ast.Unparen(ce.Args[1])
+				if se, isS := src.(*ast.SliceExpr); isS {
+					if isLocal(info, se.X, p) && se.Low == nil && se.High != nil && sameObj(info, se.High, nObj) {
+						copyOK = true
+					}
+				} else if isLocal(info, src, p) {
+					copyOK = true
+				}
+				if copyOK {
+					copyLoc = g.LocOf(ce)
+				}
+			}
+			return true
+		})
+		if nObj != nil {
+			for _, a := range assignsIn(u, func(l ast.Expr) bool { return isLocal(info, l, p) }) {
+				if se, isS := ast.Unparen(a.Rhs).(*ast.SliceExpr); isS && isLocal(info, se.X, p) && se.High == nil && se.Low != nil && sameObj(info, se.Low, nObj) {
+					advOK = true
+					advLoc = a.Loc
+				} else {
+					advOK = false
+					break
+				}
+			}
+		}
+		order := ncopyOK && copyOK && posOK && advOK && g.Dominates(ncopyLoc, copyLoc) && g.Dominates(copyLoc, posLoc) && g.Dominates(copyLoc, advLoc)
+		// the reported count is the original length
+		retOK := false
+		for _, r := range returnsIn(u) {
+			if len(r.Stmt.Results) == 2 && core.IsNil(info, r.Stmt.Results[1]) && copyOK && g.CanFollow(copyLoc, r.Loc) {
+				d := u.Resolve(r.Stmt.Results[0])
+				if ce, isC := ast.Unparen(d).(*ast.CallExpr); isC && len(ce.Args) == 1 && isLocal(info, ce.Args[0], p) {
+					if id, isId := ce.Fun.(*ast.Ident); isId && id.Name == "len" {
+						// defined before the loop consumed p
+						retOK = !advOK || !g.CanFollow(advLoc, g.LocOf(d))
+					}
+				}
+			}
+		}
+		c.Check(R, key+"/copy-loop", loop.Pos(), condOK && order && retOK,
+			keyf("while len(%s)>0: %v; n:=ncopy(len(%s)): %v; copy(writeBuf[pos:], %s[:n]): %v; pos+=n: %v; %s=%s[n:]: %v; copy first: %v; returns original length: %v", p, condOK, p, ncopyOK, p, copyOK, posOK, p, p, advOK, order, retOK))
+	}
+	// ncopy: n = len(writeBuf) - pos, clamped to max, never more
+	if u := c.Fn(R, "webtransport.(*messageWriter).ncopy"); u != nil {
+		info := u.Info()
+		g := u.Graph()
+		max := paramName(u, 0)
+		roomOK, clampOK := true, false
+		nDefs := assignsIn(u, func(l ast.Expr) bool { return isLocal(info, l, "n") })
+		for _, a := range nDefs {
+			if isLocal(info, a.Rhs, max) {
+				// n = max must be on the n > max edge
+				clampOK = g.GuardedBy(a.Loc, func(x *core.Unit, br core.Branch) int {
+					cmp, ok := x.BranchCmp(br)
+					if !ok {
+						return 0
+					}
+					if isLocal(info, cmp.X, "n") && isLocal(info, cmp.Y, max) && (cmp.Op == token.GTR || cmp.Op == token.GEQ) {
+						return 1
+					}
+					return 0
+				})
+				continue
+			}
+			terms, k := linear(info, a.Rhs)
+			ok := len(terms) == 2 && k == 0
+			for _, t := range terms {
+				switch {
+				case t.Sign == 1:
+					ce, isC := ast.Unparen(t.E).(*ast.CallExpr)
+					ok = ok && isC && len(ce.Args) == 1 && fieldOf(info, ce.Args[0]) == "Conn.writeBuf"
+				case t.Sign == -1:
+					ok = ok && fieldOf(info, t.E) == "messageWriter.pos"
+				}
+			}
+			roomOK = roomOK && ok
+		}
+		retN := false
+		for _, r := range returnsIn(u) {
+			if len(r.Stmt.Results) == 2 && core.IsNil(info, r.Stmt.Results[1]) {
+				retN = isLocal(info, r.Stmt.Results[0], "n")
+				if ce, isC := ast.Unparen(r.Stmt.Results[0]).(*ast.CallExpr); isC && len(ce.Args) == 2 {
+					if id, isId := ce.Fun.(*ast.Ident); isId && id.Name == "min" && info.Uses[id] == types.Universe.Lookup("min") {
+						a, b := ce.Args[0], ce.Args[1]
+						if (isLocal(info, a, "n") && isLocal(info, b, max)) || (isLocal(info, b, "n") && isLocal(info, a, max)) {
+							retN, clampOK = true, true
+						}
+					}
+				}
+			}
+		}
+		c.Check(R, "webtransport.(*messageWriter).ncopy/room-clamped", u.Pos(), len(nDefs) >= 2 && roomOK && clampOK && retN,
+			keyf("n = len(writeBuf) - pos at every definition: %v; n = max only on the n > max edge: %v; returns n: %v", roomOK, clampOK, retN))
+	}
+	// ReadFrom: r.Read(writeBuf[pos:]) then pos += n
+	if u := c.Fn(R, "webtransport.(*messageWriter).ReadFrom"); u != nil {
+		info := u.Info()
+		g := u.Graph()
+		ok := false
+		for _, cl := range u.Calls() {
+			if cl.Name != "Read" || len(cl.Expr.Args) != 1 {
+				continue
+			}
+			dst, isD := ast.Unparen(cl.Arg(0)).(*ast.SliceExpr)
+			if !isD || fieldOf(info, dst.X) != "Conn.writeBuf" || dst.Low == nil || dst.High != nil || fieldOf(info, dst.Low) != "messageWriter.pos" {
+				continue
+			}
+			for _, pa := range fieldAssigns(u, "messageWriter.pos") {
+				if pa.Tok == token.ADD_ASSIGN && pa.Rhs != nil && g.Dominates(cl.Loc, pa.Loc) {
+					if te, isT := u.Resolve(pa.Rhs).(*core.TupleElem); isT && te.Index == 0 && ast.Unparen(te.X) == ast.Node(cl.Expr) {
+						// counted on every path, also when the read returns data together with an error (io.EOF)
+						paLoc, clLoc := pa.Loc, cl.Loc
+						skip := g.Reach(g.After(clLoc), func(s core.State) bool { return core.IsExitState(s) || (s.B == clLoc.B && s.I == clLoc.I) },
+							func(s core.State) bool { return s.B == paLoc.B && s.I == paLoc.I }, nil)
+						ok = !skip
+					}
+				}
+			}
+		}
+		c.Check(R, "webtransport.(*messageWriter).ReadFrom/read-into-room", u.Pos(), ok, "n, err = r.Read(writeBuf[pos:]); pos += n on every path (bytes returned together with io.EOF count)")
+	}
 }
